@@ -9,7 +9,7 @@ from fractions import Fraction as F
 import numpy as np
 
 from . import mc, tlc
-from .common import allclose, tla_rat
+from .common import allclose, tla, tla_rat
 
 INVARIANTS = ["ProjectionSolvesSystem", "ZeroFramesGiveZero", "PosteriorCovIsInverse", "MStepSolvesNormalEq",
               "SigmaAboveFloor", "AllFinite", "AffineInvariant"]
@@ -60,6 +60,15 @@ def scn_json(s):
                        "s": [[q(v) for v in row] for row in st["s"]]} for st in s["stats"]]}
 
 
+def _fr(v):
+    return [_fr(x) for x in v] if isinstance(v, (list, tuple)) else F(v)
+
+
+def scn_tla(s):
+    return {"m": _fr(s["m"]), "T": _fr(s["T"]), "sg": _fr(s["sg"]), "upd": bool(s["upd"]),
+            "stats": [{"n": _fr(st["n"]), "f": _fr(st["f"]), "s": _fr(st["s"])} for st in s["stats"]]}
+
+
 def random_scenario(rng, C, D, Rt, pool, mvals, tvals, sgvals, nstats=(1, 2), zero_comp=None):
     k = rng.choice(nstats)
     stats = [rng.choice(pool) for _ in range(k)]
@@ -80,7 +89,6 @@ def rat_set(vals):
 def product_domain(C, D, Rt, mvals, tvals, sgvals, statlists):
     """TLA+ text of the full product: every (m, T, sigma) over the value sets x every listed statistics list
     x update_sigma on/off."""
-    from .common import tla
     sl = "{" + ", ".join(tla([{"n": st["n"], "f": st["f"], "s": st["s"]} for st in lst]) for lst in statlists) + "}"
     return mc.Expr("[m : [1..%d -> [1..%d -> %s]], T : [1..%d -> [1..%d -> [1..%d -> %s]]], "
                    "sg : [1..%d -> [1..%d -> %s]], upd : BOOLEAN, stats : %s]"
@@ -93,24 +101,19 @@ def model_run(ck, name, C, D, Rt, floor, affs, scenarios=None, domain=None, dev=
     """One exhaustive TLC run of IVector over the given scenarios (an explicit list, handed over as a JSON
     file, or a TLA+ set expression); returns the records exported at the terminal states."""
     root = "MC_IVector"
-    env = {}
     if scenarios is not None:
-        path = os.path.join(ck.work, name.replace(":", "_") + ".scn.json")
-        with open(path, "w") as f:
-            json.dump([scn_json(s) for s in scenarios], f)
-        env["IV_SCN"] = path
-        dom = mc.Expr("LET S == JsonDeserialize(IOEnv.IV_SCN) IN {S[k] : k \\in 1..Len(S)}")
+        dom = mc.Expr("{" + ",\n  ".join(tla(scn_tla(s)) for s in scenarios) + "}")
     else:
         dom = domain
     defs = {"MC_Scenarios": dom,
             "MC_Floor": mc.Expr(tla_rat(floor)),
             "MC_Affs": mc.Expr("{" + ", ".join("<<%s, %s>>" % (tla_rat(a), tla_rat(b)) for a, b in affs) + "}"),
             "MC_Dev": mc.Expr("{" + ", ".join('"%s"' % d for d in dev) + "}")}
-    text = mc.module(root, ["IVector", "IOUtils"], defs)
+    text = mc.module(root, ["IVector"], defs)
     cfg = mc.cfg(consts={"C": C, "D": D, "Rt": Rt, "Bw": bw, "Ba": ba},
                  subst={"Scenarios": "MC_Scenarios", "Floor": "MC_Floor", "Affs": "MC_Affs", "Dev": "MC_Dev"},
                  invariants=invariants, constraints=["Export"] if export else [])
-    r = tlc.run(ck.work, root, cfg, root_text=text, workers=workers, coverage=coverage, env=env,
+    r = tlc.run(ck.work, root, cfg, root_text=text, workers=workers, coverage=coverage,
                 expect_violation=expect_violation)
     ck.account(name, r, expect_violation=expect_violation)
     return r.records
